@@ -472,7 +472,7 @@ def run(ctx, replay=None):
         "the network simplex (pynndescent) is not modelled: each returned plan is validated by the proved checker",
         "the instance a call stands for is p/sum(p), q/sum(q) as exact rationals (floats sum to 1 only up to rounding) and C as given",
         "instances are handed to the Coq checker scaled to integers (masses by Ms, costs by Ks; delta and unit scale along); "
-        "the checked statements are homogeneous in these scalings",
+        "C07_checker_sound_scaled proves that acceptance of the scaled literals implies the statements for the unscaled instance",
         "tolerances: marginals 1e-9 absolute, cost 1e-7 * max(1, OPT)",
         "inside the lot kernels the plan is observed through the barycentric images (plan * (1/q)), i.e. up to one rounding per entry",
     ]
